@@ -531,3 +531,77 @@ def probe_diff(a, b, rtol=1e-9):
         elif x != y:
             bad.append((k, x, y))
     return bad
+
+
+# --------------------------------------------------------------------------- content edits that introduce an optional column
+
+
+def edit_candidates(D, pg, F, target, what):
+    """rows (TimeSeries) of the databook tables / transfer+interaction tables / program spending tables where the optional
+    content `what` (sigma | assumption | years) can be entered; rows of tables that do not have that column at all come first.
+    returns [(label, ts, years of the table, table lacks the column)]"""
+    out = []
+
+    def lacks(rows):
+        rows = list(rows)
+        if what == "sigma":
+            return all(ts.sigma is None for ts in rows)
+        if what == "assumption":
+            return all(ts.assumption is None for ts in rows)
+        return all(not ts.has_time_data for ts in rows)
+
+    def can(ts):
+        if what == "sigma":
+            return ts.sigma is None
+        if what == "assumption":
+            return ts.assumption is None and ts.has_time_data
+        return (not ts.has_time_data) and ts.assumption is not None
+
+    if target == "data":
+        timed = {n for n in F.pars.index if F.pars.at[n, "timed"] == "y"}
+        for code, tdve in D.tdve.items():
+            if code in timed:
+                continue  # assumption only, no uncertainty column by design (ProjectData.new)
+            lk = lacks(tdve.ts.values())
+            for pop, ts in tdve.ts.items():
+                if can(ts):
+                    out.append(("tdve %s/%s" % (code, pop), ts, list(tdve.tvec), lk))
+    elif target == "transfer":
+        for tdc in list(D.transfers) + list(D.interpops):
+            lk = lacks(tdc.ts.values())
+            for key, ts in tdc.ts.items():
+                if can(ts):
+                    out.append(("%s %s/%s" % (tdc.type, tdc.code_name, key), ts, list(tdc.tvec), lk))
+    else:
+        for name, prog in pg.programs.items():
+            rows = {"spend": prog.spend_data, "unit_cost": prog.unit_cost, "capacity": prog.capacity_constraint, "saturation": prog.saturation}
+            for field, ts in rows.items():
+                if field in ("capacity", "saturation") and not ts.has_data:
+                    continue
+                if can(ts):
+                    out.append(("program %s/%s" % (name, field), ts, list(pg.tvec), lacks(rows.values())))
+    out.sort(key=lambda x: not x[3])  # (stable) column-introducing rows first
+    return out
+
+
+def apply_edit(ts, years, what, value):
+    if what == "sigma":
+        ts.sigma = float(value)
+    elif what == "assumption":
+        ts.insert(None, float(value))
+    else:
+        if not len(years):
+            return False
+        ts.insert(float(years[0]), float(value))
+    return True
+
+
+def set_auto_columns(D):
+    """let the writer decide which optional columns a table gets (the documented None state of write_units / write_uncertainty /
+    write_assumption), as in files that were not produced by ProjectData.new (e.g. the library databooks have no 'Uncertainty' column)"""
+    timed_like = [t for t in D.tdve.values() if not len(t.tvec)]
+    for t in list(D.tdve.values()) + list(D.transfers) + list(D.interpops):
+        if t in timed_like:
+            continue
+        t.write_uncertainty = None
+        t.write_assumption = None
